@@ -342,8 +342,8 @@ def rdataFromTextTyped (ty : Nat) (s : TState) (origin : Option Name) (rel : Boo
   else .error .unmodelled
 
 /-- `dns.rdata.from_text(IN, ty, tok, origin, relativize, relativize_to)`; returns the rdata and its comment -/
-def rdataFromText (ty : Nat) (s : TState) (origin : Option Name) (rel : Bool) (relTo : Option Name) :
-    RM (Rdata × Option (List Nat) × TState) :=
+def rdataFromText (ty : Nat) (s : TState) (origin : Option Name) (rel : Bool) (relTo : Option Name)
+    (gfix : Bool := false) : RM (Rdata × Option (List Nat) × TState) :=
   wrapSyntax do
     let (rd, s) ←
       if isGenericType ty then do
@@ -356,11 +356,14 @@ def rdataFromText (ty : Nat) (s : TState) (origin : Option Name) (rel : Bool) (r
         let s1 ← liftT (s1.unget t)
         if t.isIdentifier ∧ t.value = [92, 35] then do
           let (d, s2) ← genericFromText s1
-          match rdataFromWire ty d origin with
+          -- as shipped: `from_wire(..., origin)` then `rdata.to_wire()` (D08, read side).  Variant `gfix`
+          -- (proposed repair): both with `(relativize_to or origin) if relativize else None`.
+          let relOrigin : Option Name :=
+            if rel then (match relTo with | some r => if r = [] then origin else some r | none => origin) else none
+          match rdataFromWire ty d (if gfix then relOrigin else origin) with
           | none => .error .syntaxError
           | some rd =>
-            -- `rwire = rdata.to_wire()`: no origin (as shipped)
-            match rdataToWire none rd with
+            match rdataToWire (if gfix then relOrigin else none) rd with
             | .error _ => .error .syntaxError
             | .ok w => if w ≠ d then .error .syntaxError else pure (rd, s2)
         else rdataFromTextTyped ty s1 origin rel relTo
@@ -486,10 +489,13 @@ structure PState where
   lastTTLKnown : Bool := false
   defaultTTL : Nat := 0
   defaultTTLKnown : Bool := false
+  /-- which variant of the generic-syntax reader the code implements (false = as shipped) -/
+  gfix : Bool := false
   deriving Repr
 
-def PState.init (text : List Nat) (origin : Option Name) (rel : Bool) : PState :=
-  { tok := TState.init text, zoneOrigin := origin, relativize := rel, currentOrigin := origin, lastName := origin }
+def PState.init (text : List Nat) (origin : Option Name) (rel : Bool) (gfix : Bool := false) : PState :=
+  { tok := TState.init text, zoneOrigin := origin, relativize := rel, currentOrigin := origin, lastName := origin,
+    gfix := gfix }
 
 /-- the "effective" origin of `origin_information()` -/
 def PState.effOrigin (r : PState) : Option Name := if r.relativize then some [] else r.zoneOrigin
@@ -588,7 +594,7 @@ def rrHeader (r : PState) : RM ((Option Nat × Nat) × PState) := do
 
 /-- the RDATA part of `_rr_line`, the SOA-minimum default and the final TTL check -/
 def rrFinish (name : Name) (ttl : Option Nat) (ty : Nat) (r : PState) : RM (Option Entry × PState) := do
-  let (rd, comment, s) ← rdataFromText ty r.tok r.currentOrigin r.relativize r.zoneOrigin
+  let (rd, comment, s) ← rdataFromText ty r.tok r.currentOrigin r.relativize r.zoneOrigin r.gfix
   let r := { r with tok := s }
   let (ttl, r) :=
     if !r.defaultTTLKnown ∧ ty = tSOA then
@@ -750,7 +756,7 @@ def genItem (ttl ty : Nat) (item : List Nat × List Nat) (r : PState) : RM (Opti
         | .error e => .error e
         | .ok name =>
           -- the rdata is parsed from a fresh tokenizer over the substituted string
-          match rdataFromText ty (TState.init item.2) r.currentOrigin r.relativize r.zoneOrigin with
+          match rdataFromText ty (TState.init item.2) r.currentOrigin r.relativize r.zoneOrigin r.gfix with
           | .error e => .error e
           | .ok (rd, comment, _) => pure (some ⟨name, ttl, ty, ⟨rd, comment⟩⟩, r)
 
@@ -910,8 +916,9 @@ def checkOrigin (z : ZoneMap) (origin : Option Name) (rel : Bool) : RM Unit :=
 
 /-- `dns.zone.from_text(text, origin, relativize=rel, check_origin=chk)` (class IN): the loaded nodes and the
 zone's origin -/
-def zoneFromText (text : List Nat) (origin : Option Name) (rel chk : Bool) : RM (ZoneMap × Option Name) := do
-  let (r, z) ← (PState.init text origin rel).read
+def zoneFromText (text : List Nat) (origin : Option Name) (rel chk : Bool) (gfix : Bool := false) :
+    RM (ZoneMap × Option Name) := do
+  let (r, z) ← (PState.init text origin rel gfix).read
   if chk then checkOrigin z r.zoneOrigin rel
   pure (z, r.zoneOrigin)
 
@@ -931,6 +938,9 @@ structure Style extends RdStyle where
   wantComments : Bool := false
   omitClass : Bool := false
   omitTTL : Bool := false
+  /-- which variant of `want_generic` the code implements: 0 = as shipped (`rd.to_generic()`), 1 = `rd.to_generic(style.origin)`,
+  2 = additionally `Zone.to_styled_file` supplies the zone's origin when the style has none -/
+  genFix : Nat := 0
   deriving Repr
 
 /-- `justify(text, amount)` -/
@@ -965,8 +975,8 @@ def rdatasetLines (st : Style) (name : Name) (rds : Rdataset) : Except NameErr (
         else []
       let rtext ←
         if st.wantGeneric then do
-          -- `rd.to_generic()`: no origin (as shipped)
-          let w ← rdataToWire none rr.rd
+          -- `rd.to_generic()`: no origin (as shipped, D08); `rd.to_generic(style.origin)` in the repaired variants
+          let w ← rdataToWire (if st.genFix ≥ 1 then st.origin else none) rr.rd
           rdataToText st.toRdStyle (.generic w)
         else rdataToText st.toRdStyle rr.rd
       let line := nt ++ ttlText ++ classText ++ typeText ++ [32] ++ rtext ++ extra
@@ -993,7 +1003,11 @@ def insertName (n : Name × Node) : List (Name × Node) → List (Name × Node)
 def sortNames (z : ZoneMap) : ZoneMap := z.foldl (fun acc n => insertName n acc) []
 
 /-- `Zone.to_styled_file(style, f)` with `nl = "\n"`: the text written -/
-def zoneToText (st : Style) (origin : Option Name) (z : ZoneMap) : Except NameErr (List Nat) := do
+def zoneToText (st : Style) (origin : Option Name) (z : ZoneMap) (zrel : Bool := true) : Except NameErr (List Nat) := do
+  let st : Style :=
+    if st.genFix ≥ 2 ∧ st.wantGeneric ∧ st.origin.isNone ∧ origin.isSome then
+      { st with origin := origin, relativize := zrel }
+    else st
   let l1 ← if st.wantOrigin then
       match origin with
       | some o => do
